@@ -187,3 +187,44 @@ Proof.
 Qed.
 
 End Drained.
+
+(* ------------------------------------------------------------------ several senders *)
+
+Section MiniMulti.
+
+Variable inflate : list byte -> option (list byte).
+
+Definition mfrom (a : addr) {X} (d : addr * X) : bool := fst d =? a.
+
+Lemma mrecv_packet_tag rc a p : forall d, In d (mrecv_packet inflate rc a p) -> fst d = a.
+Proof.
+  unfold mrecv_packet.
+  destruct (lenN (takeN (rc_mtu rc) p) =? 0); [intros d []|].
+  destruct (rc_misc rc && ((lenN (takeN (rc_mtu rc) p) <? PHS) || negb (first_word_is (rc_magic rc) (takeN (rc_mtu rc) p)))).
+  { intros d [<-|[]]. reflexivity. }
+  destruct (PHS <=? lenN (takeN (rc_mtu rc) p)); [|intros d []].
+  destruct (rd32 (takeN (rc_mtu rc) p)) as [[mg b1]|]; [|intros d []].
+  destruct (rd32 b1) as [[sx b2]|]; [|intros d []].
+  destruct (rd32 b2) as [[cl b3]|]; [|intros d []].
+  destruct ((mg =? rc_magic rc) && ((rc_sex rc =? 0) || negb (rc_sex rc =? sx))); [|intros d []].
+  intros d Hd. apply in_map_iff in Hd as (m & <- & _). reflexivity.
+Qed.
+
+(* the mini receiver keeps no state: what it delivers under address a depends on a's datagrams only,
+   for any number of sources and arbitrary datagrams *)
+Theorem mini_noninterference rc a net :
+  filter (mfrom a) (mrecv_all inflate rc net) = mrecv_all inflate rc (filter (mfrom a) net).
+Proof.
+  induction net as [|[b p] net IH]; [reflexivity|]. cbn [mrecv_all filter]. rewrite filter_app, IH.
+  unfold mfrom at 3. cbn [fst]. destruct (N.eqb_spec b a) as [->|Hba].
+  - cbn [mrecv_all]. f_equal.
+    pose proof (mrecv_packet_tag rc a p) as Htag. induction (mrecv_packet inflate rc a p) as [|d l IHl]; [reflexivity|].
+    cbn [filter]. unfold mfrom at 1. rewrite (Htag d (or_introl eq_refl)), N.eqb_refl. f_equal.
+    apply IHl. intros d' Hd'. apply Htag. now right.
+  - replace (filter (mfrom a) (mrecv_packet inflate rc b p)) with (@nil (addr * msg)); [reflexivity|].
+    symmetry. pose proof (mrecv_packet_tag rc b p) as Htag. induction (mrecv_packet inflate rc b p) as [|d l IHl]; [reflexivity|].
+    cbn [filter]. unfold mfrom at 1. rewrite (Htag d (or_introl eq_refl)).
+    destruct (N.eqb_spec b a); [congruence|]. apply IHl. intros d' Hd'. apply Htag. now right.
+Qed.
+
+End MiniMulti.
